@@ -2,7 +2,7 @@
 import copy
 import io
 
-from .. import cfggen, cfgrun, cfgstream, core, schemafam as F
+from .. import cfggen, cfgrun, cfgstream, core, elabrun, schemafam as F
 from ..sexp import enc
 
 RULE = ("rule-satisfying documents rendered from the generated schema family (must be accepted, and the loaded schema object "
@@ -188,9 +188,11 @@ def run(ctx):
     obligations, discharged, names = core.standard_prelude(ctx, ["ZCV.Props.C10"])
     rng = ctx.rng
     n = 400 if ctx.thorough() else 60
+    all_docs = []
     for _ in range(n):
         sd = cfggen.gen_schema(rng, handlers=rng.random() < 0.3)
         xml = F.render_xml(sd)
+        all_docs.append(xml)
         r = load_xml(xml)
         ctx.evaluations += 1
         ctx.nontriv(xml)
@@ -207,6 +209,7 @@ def run(ctx):
             fa = a[1][a[1].rindex("</schema>") - 200: a[1].rindex("</schema>")]
         for rule, doc in es:
             x = doc if isinstance(doc, str) else F.render_xml(doc)
+            all_docs.append(x)
             r2 = load_xml(x)
             ctx.evaluations += 1
             ctx.nontriv(x)
@@ -222,6 +225,9 @@ def run(ctx):
             else:
                 ctx.violate("rule '%s' violated: the loader raised %s instead of SchemaError" % (rule, r2[1]), {"schema_xml": x, "rule": rule},
                             signature="C10:%s:%s" % (r2[0], rule))
+    # the Lean model of the schema loader (ZCV/Model/Elab.lean) on every one of these documents: same accept/reject,
+    # same exception class, the model's reason contained in the real message, equal schema object when accepted
+    elabrun.compare(ctx, "c10", all_docs)
     ctx.sample({"rules": sorted({e[0] for e in edits(rng, cfggen.gen_schema(rng))})})
     return core.finish(ctx, obligations, discharged, names, RULE,
                        "lake build ZCV.Props.C10 && lake env lean ZCV/Audit/C10.lean",
